@@ -114,8 +114,20 @@ def range_assignment(chk, F, rule, cfg):
     chk.ob(rule, 'ordered arm of new_call_pattern analysed', n_ord >= 1, config=cfg, fn=fn, site='ordered', unrecognised=True, what='no ordered path')
     # R18.4: the cursor is used nowhere else
     acc = L.field_accesses(F, 'assemble::MockAssembler', 'current_call_index')
-    users = L.attributed(F, acc)
-    chk.ob(rule, 'the slot cursor is only used by new_call_pattern (and initialised in new)', set(users) <= {'assemble::MockAssembler::new_call_pattern', 'assemble::MockAssembler::new'}, config=cfg,
+    # an assembler is born with the cursor at 0 (whoever builds one: `new`, a derived `Default`, a struct literal somewhere else)
+    makers = sorted(set(b.defp for b, _, k, _ in acc if k == 'construct'))
+    for mk in makers:
+        mf = F.fns.get(mk)
+        if mf is None:
+            continue
+        for p in symex.Interp(F).run(mf):
+            for v_ in symex.subvalues(p.outcome[1] if p.outcome[0] == 'return' else ('unk', '')):
+                if v_[0] == 'agg' and v_[1] == 'adt' and v_[2] == 'assemble::MockAssembler':
+                    c0 = strip(dict(v_[4]).get('current_call_index', ('unk', '')))
+                    chk.ob(rule, 'a new assembler starts with the slot cursor at 0', c0 == ('c', 0), config=cfg, fn=mf, site='cursor-init', what='initial cursor %s' % show(c0), found=show(c0), expected='0')
+    chk.floor(rule, 'functions that build an assembler', len(makers), 1, config=cfg)
+    users = L.attributed(F, [a for a in acc if not (a[2] == 'construct' and a[0].defp in makers)])
+    chk.ob(rule, 'the slot cursor is only used by new_call_pattern (and initialised where an assembler is built)', set(users) <= {'assemble::MockAssembler::new_call_pattern'}, config=cfg,
            site='field:current_call_index', what='users of the slot cursor', found=users)
     # exact_calls = Some(minimum) iff Exact
     ec = F.fn('counter::CallCountExpectation::exact_calls')
